@@ -54,7 +54,8 @@ class CounterModel(object):
         return {'resumed': self.resumed_after_stop, 'set_midrun': h.started and self.set_since_step,
                 'continued_after_finalize': self.continued_after_finalize or (bool(h.solvers) and self.collapse_applied(h)),
                 'stop_by_precheck': self.stop_by_precheck, 'evalmon_midrun': self.evalmon_midrun,
-                'stepmon_midrun': self.stepmon_midrun}
+                'stepmon_midrun': self.stepmon_midrun,
+                'aborted_map': h.plan['solver'] == 'DE2' and bool(h.run.raised), 'aborted_step': bool(h.run.raised)}
 
     def before_op(self, h, op):
         # Finalize() called by mystic itself while a run goes on (Step finalizes when Terminated() is true, and then asks
@@ -64,7 +65,7 @@ class CounterModel(object):
             solver_ = h.solver; fin = solver_.Finalize; model_ = self
             def Finalize():
                 r_ = fin()
-                if h.started: model_.finalized = True
+                if h.started or h.in_solve: model_.finalized = True
                 return r_
             try:
                 solver_.Finalize = Finalize; solver_._c04_fin_wrapped = True
@@ -139,6 +140,7 @@ class CounterModel(object):
         run = h.run
         if res.get('exc') == 'SimFault':
             self.check_after_io_fault(h, op, res)
+            self.pending_abort = True      # an iteration was cut short: the step monitor has not seen what it changed yet
             return
         if op['op'] in ('set', 'finalize'):
             if h.started:
@@ -163,6 +165,7 @@ class CounterModel(object):
                 else:
                     self.evalmon_kind = None; self.evalmon_base = None
         self.check(h, 'after_' + op['op'])
+        self.check_best_vs_evaluated(h, 'after_' + op['op'])
 
     def after_step_call(self, h, msg, executed):
         if self.stopped and executed:
@@ -192,7 +195,9 @@ class CounterModel(object):
         self.stop_by_precheck = not executed
 
     def on_step(self, h, s):
+        self.pending_abort = False
         if self.finalized: self.continued_after_finalize = True
+        if h.started: self.check_best_vs_evaluated(h, 'iteration_%d' % s['_step_no'])
         # the callback receives the current best
         if not feq(s['_cb_x'], s['bestSolution']):
             h.violate(self.P, 'callback_arg_not_best', detail='callback got %r, best is %r'
@@ -220,7 +225,7 @@ class CounterModel(object):
                 h.violate(self.P, 'best_history_increased', detail='%s: energy_history[%d]=%r < [%d]=%r'
                           % (when, i, a, i + 1, b), **T)
                 break
-        if eh and h.started and not feq(eh[-1], s['bestEnergy']):
+        if eh and h.started and not getattr(self, 'pending_abort', False) and not feq(eh[-1], s['bestEnergy']):
             h.violate(self.P, 'history_tail_not_best', detail='%s: energy_history[-1]=%r bestEnergy=%r'
                       % (when, eh[-1], s['bestEnergy']), **T)
         # (2) evaluation counter == real calls over the whole life
@@ -230,7 +235,7 @@ class CounterModel(object):
         # (3) evaluation monitor == the calls in order (default in-process map only)
         em = s['evalmon']
         if self.evalmon_kind and self.evalmon_base is not None and not h.plan.get('map'):
-            want = mine[self.evalmon_base:]
+            want = [e for e in mine[self.evalmon_base:] if e.n not in run.raised]     # a call that raised returned no cost to log
             wx = tuple(e.x for e in want); wy = tuple(canon(e.y) for e in want)
             if not (feq(em['x'], wx) and feq(em['y'], wy)):
                 d = observe.first_diff({'x': em['x'], 'y': em['y']}, {'x': wx, 'y': wy})
@@ -269,6 +274,27 @@ class CounterModel(object):
                                   'the best after that iteration was %r/%r' % (when, k_, x, y,
                                   ss['bestSolution'], ss['bestEnergy']), **T)
                         break
+
+    def check_best_vs_evaluated(self, h, when):
+        """best-so-far never worsens, measured against what was really evaluated: DE and Nelder-Mead accept every evaluated
+        point that beats their best, so the reported best energy is never above the lowest objective value evaluated so
+        far (one objective epoch, scalar finite costs; also after a failure of the cost that the caller handled)"""
+        if not h.started or h.plan['solver'] not in ('DE', 'DE2', 'NM'): return
+        if self.epoch_from or self.set_since_step or self.finalized: return
+        if h.constraint is not None or h.bounds is not None or h.reducer: return
+        run = h.run
+        if h.plan['solver'] == 'DE2' and run.raised: return      # (the results of a map that raised never reached the solver)
+        mine = [e for e in run.evals if e.owner == h.cur and e.n not in run.raised]
+        if not mine or any(not isinstance(e.y, float) or e.y != e.y for e in mine): return
+        from . import env
+        pen = h.penalty.spec if h.penalty is not None else None
+        lowest = min(e.y + (env.pen_apply(pen, e.x) if pen else 0.0) for e in mine)
+        be = canon(h.solver.bestEnergy)
+        h.run.probe('c04.best_vs_evaluated')
+        if isinstance(be, float) and be == be and be > lowest:
+            h.violate(self.P, 'best_worse_than_evaluated', detail='%s: bestEnergy=%r although an objective value of %r was evaluated earlier '
+                      '(%d real cost calls)' % (when, be, lowest, len(mine)),
+                      aborted_in_generation0=any(n_ <= len(h.solver.population) for n_ in run.raised), **self.tags(h))
 
     def finish(self, h):
         # the callback fires exactly once per executed iteration: cross-check with the monitor
